@@ -41,6 +41,24 @@ PROPS.update({
                       "transaction, and the two-party sentence (sender reports success only if its receiver did).",
         "level_note": VERUS_NOTE + "finalize_receive, is_file_transfer, send_indication are stubs (bodies not verified).",
     },
+    "C07": {
+        "title": "Sender transmits exactly the source file: right bytes, offsets, sizes, checksum",
+        "verus": [("send", ["O-C07-"])],
+        "level": "proof",
+        "technique": "deductive verification (Verus/Z3) of the sender's PDU assembly functions; file access under assumed POSIX contracts",
+        "design_ref": "DESIGN.md 4/C07",
+        "level_text": "Partial, proof of function contracts: every PDU built by send_file_segment / send_eof / send_prompt / send_ack is handed to the "
+                      "transport with the configured destination, a header whose identifiers, mode, direction, CRC and file-size flags come from the "
+                      "configuration and whose length field equals the payload's encoded length; a file-data PDU carries exactly the offset and bytes "
+                      "returned by get_file_segment, which never returns more than the requested length / configured segment size and reads at the "
+                      "requested offset; send_missing_data consumes exactly the first queued request, restores nothing it should not and never moves the "
+                      "progress; send_eof sends the stored EOF once per arming; send_pdu's dispatch reaches the emitters only as its guard allows. "
+                      "UNDER ASSUMED file contracts (seek/position/read of std::fs::File as stubs). NOT decided: the NAK splitter and de-duplication in "
+                      "process_pdu (iterator chain), send_metadata (iterator chain), that the first pass tiles the file once in order (state machine "
+                      "across calls), that the EOF checksum is the file's checksum (get_checksum is a stub; the checksum routine itself is C14).",
+        "level_note": VERUS_NOTE + "File I/O stubs vx_stream_position/vx_seek_start/vx_read_up_to/vx_file_len replace `<io call>.map_err(..)?` by declared rewrites; "
+                      "PDUPayload::encoded_len is uninterpreted here (its agreement with the encoder is property C05).",
+    },
     "C08": {
         "title": "Receiver NAKs are well-formed and ask for exactly what is missing",
         "verus": [("segments", ["O-C08-"]), ("recv", ["O-C08-"])],
